@@ -63,6 +63,16 @@ PSetSlice(st, a, b, xs) == LET d == SliceSize(SliceOf(st.items, a, b)) n == Slic
                            IF d < 0 \/ n < 0 THEN Fail(st, "AttributeError")
                            ELSE Update(st, d, n, Splice(st.items, a, b, xs))
 
+\* extended slices take the same path in the code: the items selected by self._items[index] are the ones removed;
+\* list(self._items)[index] = value raises ValueError for a wrong number of values before anything is changed
+PDelX(st, a, b, k) == LET d == SliceSize(XSel(st.items, a, b, k)) IN
+                      IF d < 0 THEN Fail(st, "AttributeError")
+                      ELSE Update(st, d, 0, XDel(st.items, a, b, k))
+PSetX(st, a, b, k, xs) == IF Len(xs) # Len(XPos(st.items, a, b, k)) THEN Fail(st, "ValueError")
+                          ELSE LET d == SliceSize(XSel(st.items, a, b, k)) n == SliceSize(xs) IN
+                               IF d < 0 \/ n < 0 THEN Fail(st, "AttributeError")
+                               ELSE Update(st, d, n, XSet(st.items, a, b, k, xs))
+
 Prim(st, p) ==                                          \* p = <<name, i, j, x, xs>>
   CASE p[1] = "insert"   -> PIns(st, p[2], p[4])
     [] p[1] = "append"   -> PIns(st, Len(st.items), p[4])
@@ -70,6 +80,8 @@ Prim(st, p) ==                                          \* p = <<name, i, j, x, 
     [] p[1] = "setitem"  -> PSetIdx(st, p[2], p[4])
     [] p[1] = "delslice" -> PDelSlice(st, p[2], p[3])
     [] p[1] = "setslice" -> PSetSlice(st, p[2], p[3], p[5])
+    [] p[1] = "delxslice" -> PDelX(st, p[2], p[3], p[4][1])
+    [] p[1] = "setxslice" -> PSetX(st, p[2], p[3], p[4][1], p[5])
     [] p[1] = "rev"      -> Good([st EXCEPT !.items = Rev(st.items)])
 
 -----------------------------------------------------------------------------
@@ -77,7 +89,7 @@ Prim(st, p) ==                                          \* p = <<name, i, j, x, 
 
 Program(o, s) ==
   LET name == o[1] i == o[2] j == o[3] x == o[4] xs == o[5] n == Len(s) IN
-  CASE name \in {"insert", "append", "delitem", "setitem", "delslice", "setslice"} -> <<o>>
+  CASE name \in {"insert", "append", "delitem", "setitem", "delslice", "setslice", "delxslice", "setxslice"} -> <<o>>
     [] name = "pop"     -> <<P("delitem", i, 0, None, <<>>)>>          \* self[i] raises the same IndexError
     [] name = "remove"  -> IF FirstIndexOf(s, x) < 0 THEN <<P("valueerror", 0, 0, None, <<>>)>>
                            ELSE <<P("delitem", FirstIndexOf(s, x), 0, None, <<>>)>>
